@@ -7,8 +7,20 @@ package comments
 // ---- C19: a declaration is a converter / variables block exactly when its attached doc comment contains
 // ---- the marker; a marker on the wrong kind of declaration is an error; every method/variable gets the
 // ---- setting lines of ITS OWN doc comment ----
+// how many of the first n specs of a declaration carry the converter marker in their OWN doc comment
+// (definitional axioms of a ghost function, not assumptions about code)
+//@ pred MarkedSpec(s ast.Spec) bool = dynIs[*ast.TypeSpec](s) && strings.Contains(parse.CommentToString(unboxed[*ast.TypeSpec](s).Doc), "goverter:converter")
+//@ ghost MarkedCount(specs []ast.Spec, n int) int
+//@ axiom forall specs []ast.Spec :: MarkedCount(specs, 0) == 0
+//@ axiom forall specs []ast.Spec, n int :: n >= 0 ==> MarkedCount(specs, n+1) == MarkedCount(specs, n) + ite(MarkedSpec(specs[n]), 1, 0)
+
 //@ func parseGenDecl
 //@   props C19 C13
+// without a marker on the declaration itself, exactly the specs marked in their own doc comment become converters
+// (whatever kind of declaration it is, grouped or not, documented or not)
+//@   loop 1 invariant len(converters) == MarkedCount(decl.Specs, idx)
+//@   ensures !strings.Contains(parse.CommentToString(decl.Doc), "goverter:variables") && !strings.Contains(parse.CommentToString(decl.Doc), "goverter:converter") && err == nil
+//@           ==> len(result) == MarkedCount(decl.Specs, len(decl.Specs))
 //@   propagates
 //@   requires@C13 decl != nil && fset != nil && pkg != nil
 //@   at call parseFunctions#1 assert strings.Contains(parse.CommentToString(decl.Doc), "goverter:variables") && arg3 == parse.CommentToString(decl.Doc)
